@@ -151,6 +151,9 @@ class SampleListBase:
         if not (samples or mean or std):
             raise ValueError("Neither samples nor mean nor standard deviation shall be written.")
 
+        # All tasks need to have checked for an existing file before the
+        # master task creates it
+        _barrier(self.comm)
         if self.MPI_master:
             f = h5py.File(file_name, "w")
             if isinstance(op, Operator):
